@@ -441,15 +441,23 @@ def run(ctx: Ctx) -> None:
         ctx.ob("C04.R2", cl_, "connection_lost passes on the transport's exception (InvalidTag from decrypt reaches the mapping)", isinstance(a, ast.BoolOp) and isinstance(a.op, ast.Or) and norm(a.values[0]) == ep, norm(a)[:60])
 
     hf = noise.methods["_handle_frame"]
-    for fn, callee_names in ((hf, {"decrypt"}), (dr, {"_handle_frame", "_handle_hello", "_handle_handshake"})):
+    hsf = noise.methods["_handle_handshake"]
+    for fn, callee_names in ((hf, {"decrypt"}), (hsf, {"read_message"}), (dr, {"_handle_frame", "_handle_hello", "_handle_handshake"})):
         for t in [n for n in own_nodes(fn.node) if isinstance(n, ast.Try)]:
             inside = [c for b in t.body for c in ast.walk(b) if isinstance(c, ast.Call) and ((isinstance(c.func, ast.Attribute) and c.func.attr in callee_names))]
             if not inside:
                 continue
             for h in t.handlers:
-                reports = any(isinstance(c, ast.Call) and isinstance(c.func, ast.Attribute) and c.func.attr in ("_handle_error", "_handle_error_and_close") for b in h.body for c in ast.walk(b))
+                rep_calls = [c for b in h.body for c in ast.walk(b) if isinstance(c, ast.Call) and isinstance(c.func, ast.Attribute) and c.func.attr in ("_handle_error", "_handle_error_and_close")]
+                reports = bool(rep_calls)
                 reraises = isinstance(h.body[-1], ast.Raise)
                 ctx.ob("C04.R2", fn, f"except {norm(h.type)} around {sorted(callee_names)} reports or re-raises", reports or reraises, "a frame that fails authentication would be dropped silently and the session would go on", node=h)
+                # a handler that can catch the authentication failure (InvalidTag, or anything broader) must hand THAT
+                # exception to the mapping (or build the invalid-key error itself): a fixed other class loses the mapping
+                catches_tag = h.type is None or any(x in norm(h.type) for x in ("InvalidTag", "Exception", "BaseException"))
+                if catches_tag and reports:
+                    okm = all(c.args and ((isinstance(c.args[0], ast.Name) and c.args[0].id == h.name) or err_class(ctx, fn, c.args[0]) == "InvalidEncryptionKeyAPIError") for c in rep_calls)
+                    ctx.ob("C04.R2", fn, f"except {norm(h.type) if h.type is not None else ''} around {sorted(callee_names)}: an authentication failure keeps its mapping to the invalid-key error", okm, f"reports {[norm(c.args[0])[:40] if c.args else None for c in rep_calls]}: InvalidTag caught here is reported as that class, not as InvalidEncryptionKeyAPIError", node=h)
     # every frame that reaches the READY handler is authenticated: no normal exit of the handler avoids the decrypt
     # (a shortcut for some frames - empty ones, say - lets an inserted frame pass without ending the session)
     ghf = cfg_of(ctx, hf)
